@@ -81,12 +81,12 @@ Proof.
 Qed.
 
 (* ------------------------------------------------------------------ HAVING *)
-Lemma pa_having_filter : forall p l, pa_having p l = filter (pa_hholds p) l.
+Lemma pa_having_filter : forall p l, pa_having p l = filter (pa_hkeep p) l.
 Proof.
   induction l as [|r l IH]; [reflexivity|]. simpl. rewrite IH. reflexivity.
 Qed.
 
-Lemma pa_having_in : forall p l r, In r (pa_having p l) <-> In r l /\ pa_hholds p r = true.
+Lemma pa_having_in : forall p l r, In r (pa_having p l) <-> In r l /\ pa_hkeep p r = true.
 Proof. intros. rewrite pa_having_filter. apply filter_In. Qed.
 
 (* ------------------------------------------------------------------ DISTINCT *)
